@@ -32,7 +32,13 @@ class _Normalise(ast.NodeTransformer):
 
     def visit_ClassDef(self, node):
         # class P(typing.NamedTuple): a: int; b: int = 0   -- the field list lives in the annotations that are dropped below
-        if any((isinstance(b, ast.Attribute) and b.attr == 'NamedTuple') or (isinstance(b, ast.Name) and b.id == 'NamedTuple') for b in node.bases):
+        def is_dataclass(d):
+            d = d.func if isinstance(d, ast.Call) else d
+            return (isinstance(d, ast.Name) and d.id == 'dataclass') or (isinstance(d, ast.Attribute) and d.attr == 'dataclass')
+        # (a @dataclass without an __init__ of its own takes its fields from the annotations in the same way)
+        if any((isinstance(b, ast.Attribute) and b.attr == 'NamedTuple') or (isinstance(b, ast.Name) and b.id == 'NamedTuple') for b in node.bases) \
+                or (any(is_dataclass(d) for d in node.decorator_list) and not node.bases
+                    and not any(isinstance(st, ast.FunctionDef) and st.name in ('__init__', '__post_init__') for st in node.body)):
             fields = [(st.target.id, st.value) for st in node.body if isinstance(st, ast.AnnAssign) and isinstance(st.target, ast.Name)]
             node._nt_fields = fields
         self.generic_visit(node)
@@ -225,6 +231,11 @@ class _Normalise(ast.NodeTransformer):
         else:
             loop = last
             cut = -1
+        holder = None
+        if isinstance(loop, ast.Try) and len(loop.body) == 1 and not loop.orelse and not loop.finalbody \
+                and not any(isinstance(n, (ast.Return, ast.Yield, ast.YieldFrom)) for h in loop.handlers for n in ast.walk(h)):
+            # try: for ..: if ..: return KEY  except E: raise ..   -- the loop is searched inside the try, the result returned after it
+            holder, loop = loop, loop.body[0]
         if not (isinstance(loop, ast.For) and not loop.orelse and len(loop.body) == 1 and isinstance(loop.body[0], ast.If)
                 and not loop.body[0].orelse and len(loop.body[0].body) == 1 and isinstance(loop.body[0].body[0], ast.Return)
                 and loop.body[0].body[0].value is not None):
@@ -243,7 +254,7 @@ class _Normalise(ast.NodeTransformer):
         brk = ast.copy_location(ast.Break(), ret)
         loop.body[0].body = [setv, brk]
         final = ast.copy_location(ast.Return(value=ast.Name(id=var, ctx=ast.Load())), last)
-        node.body = body[:cut] + [init, loop, final]
+        node.body = body[:cut] + [init, holder if holder is not None else loop, final]
         for n_ in ast.walk(init):
             if not hasattr(n_, 'lineno'):
                 ast.copy_location(n_, loop)
@@ -636,12 +647,12 @@ class _NoSRA(Exception):
 
 
 # -- a generator function consumed by a for loop -----------------------------------------------------------------------------
-def _own_loop_breaks(body):
-    """Does a loop body contain a `break` that belongs to this loop (not to a nested loop)?"""
+def _own_loop_breaks(body, kinds=(ast.Break,)):
+    """Does a loop body contain a `break` (or another statement of `kinds`) that belongs to this loop (not to a nested loop)?"""
     todo = list(body)
     while todo:
         n = todo.pop()
-        if isinstance(n, ast.Break):
+        if isinstance(n, kinds):
             return True
         if isinstance(n, (ast.For, ast.While, ast.AsyncFor)):
             todo.extend(n.orelse)
@@ -658,6 +669,16 @@ def _inline_generator_loop(fn, loop, funcs):
     runs inside a one-trip loop; a `break` of BODY's own loop is not expressible that way and blocks the rewrite."""
     import copy
     it = loop.iter
+    target = loop.target
+    enum_target, enum_start = None, None
+    if (isinstance(it, ast.Call) and isinstance(it.func, ast.Name) and it.func.id == 'enumerate' and 1 <= len(it.args) <= 2
+            and all(k.arg == 'start' for k in it.keywords) and len(it.args) + len(it.keywords) <= 2
+            and isinstance(target, (ast.Tuple, ast.List)) and len(target.elts) == 2 and isinstance(target.elts[0], ast.Name)):
+        # for I, T in enumerate(g(args)[, start]): g's loop yields exactly once per iteration (checked below), so I counts g's own
+        # iterations: the inlined loop runs over enumerate(<g's iterable>, start)
+        enum_target = target.elts[0]
+        enum_start = it.args[1] if len(it.args) == 2 else (it.keywords[0].value if it.keywords else None)
+        it, target = it.args[0], target.elts[1]
     if loop.orelse or not (isinstance(it, ast.Call) and isinstance(it.func, ast.Name)) or it.keywords or any(isinstance(a, ast.Starred) for a in it.args):
         return None
     g = funcs.get(it.func.id)
@@ -687,6 +708,8 @@ def _inline_generator_loop(fn, loop, funcs):
         return None
     if _own_loop_breaks(loop.body) or _own_loop_breaks(gloop.body):
         return None
+    if enum_target is not None and _own_loop_breaks(gloop.body, (ast.Continue,)):
+        return None               # an iteration of g's loop that yields nothing: the two counters would drift apart
     if any(isinstance(n, (ast.Yield, ast.YieldFrom)) for st in loop.body for n in ast.walk(st)):
         return None
     j = top[0]
@@ -720,14 +743,18 @@ def _inline_generator_loop(fn, loop, funcs):
     new_pre = [ren(st) for st in pre]
     before = [ren(st) for st in gloop.body[:j]]
     after = [ren(st) for st in gloop.body[j + 1:]]
-    bind_t = ast.Assign(targets=[loop.target], value=ren(gloop.body[j]).value.value, type_comment=None)
+    bind_t = ast.Assign(targets=[target], value=ren(gloop.body[j]).value.value, type_comment=None)
     has_continue = any(isinstance(n, ast.Continue) for st in loop.body for n in ast.walk(st))
     inner = list(loop.body)
     if after and has_continue:
         once = ast.For(target=ast.Name(id='_once' + suffix, ctx=ast.Store()), iter=ast.Tuple(elts=[ast.Constant(value=0)], ctx=ast.Load()),
                        body=inner, orelse=[], type_comment=None)
         inner = [once]
-    new_loop = ast.For(target=ren(gloop).target, iter=ren(gloop).iter, body=before + [bind_t] + inner + after, orelse=[], type_comment=None)
+    new_target, new_iter = ren(gloop).target, ren(gloop).iter
+    if enum_target is not None:
+        new_target = ast.Tuple(elts=[enum_target, new_target], ctx=ast.Store())
+        new_iter = ast.Call(func=ast.Name(id='enumerate', ctx=ast.Load()), args=[new_iter] + ([enum_start] if enum_start is not None else []), keywords=[])
+    new_loop = ast.For(target=new_target, iter=new_iter, body=before + [bind_t] + inner + after, orelse=[], type_comment=None)
     out = binds + new_pre + [new_loop]
     for st in out:
         for n in ast.walk(st):
